@@ -8,6 +8,7 @@ import struct
 import textwrap
 import time as _time
 import warnings
+import calendar
 
 from . import loader, stubs
 from . import timeenv, aio
@@ -25,6 +26,8 @@ R(textwrap.wrap, stubs.s_wrap)
 R(warnings.warn, stubs.s_warn)
 R(logging.getLogger, stubs.s_getLogger)
 R(_time, timeenv.TIME)
+R(calendar, timeenv.CALENDAR)
+R(calendar.timegm, timeenv.s_timegm)
 R(_dt, timeenv.DATETIME_MODULE)
 R(_dt.datetime, timeenv.SDateTimeClass)
 R(_dt.timedelta, timeenv.STimedeltaClass)
